@@ -1,6 +1,9 @@
 import Model.Paging
 import Model.PagingHist
 import Model.PagingRetry
+import Model.PagingWalk
+import Model.PagingFirst
+import Model.PagingPrep
 import Driver.Util
 namespace Driver.C15
 open Util Paging
@@ -409,6 +412,123 @@ def histAnswer (vn kind consumer scriptsS stepsS : String) : String :=
       s!"{itsS} reqs={multiset reqs true} prep={prep} obs={multiset obs true} tr={tr}"
   | _, _ => "bad-op"
 
+/-! ## `walk` op (walk tier: an application consumes ONE iterator step by step and may abandon it):
+    `walk v<n> <scan|mapscan|scanner> <prefetch> <pagesize> <q|x|xs|xd> <script> <steps>`
+    steps `,`-separated: `s<k>` k single calls (Scan / MapScan / Scanner.Next) stopping at the first false,
+    `o` NumRows/WillSwitchPage/PageState, `a` probe + await the asynchronous prefetch, `d` drain with the
+    consumer, `D` drain with SliceMap. After the last step: Close / Err, a running prefetch is awaited, then
+    the node's request log is read. -/
+
+def walkObs (w : Walk.W) : String :=
+  let st := Walk.pageState w
+  s!"o={Walk.numRows w}/{if Walk.willSwitch w then 1 else 0}/{if st.isEmpty then "." else toHex st}"
+
+/-- state, observations so far, SliceMap returned (nil, err) -/
+def walkStep (ppOf : Int → Nat → Nat) (api : Walk.Api) (acc : Walk.W × List String × Bool) (tok : String) :
+    Option (Walk.W × List String × Bool) :=
+  let (w, obs, nilr) := acc
+  if nilr then none else
+  match tok.toList with
+  | 's' :: rest =>
+    (String.ofList rest).toNat?.map fun k =>
+      let r := Walk.scanK ppOf api k w
+      let got := r.1.it.out.drop w.it.out.length
+      (r.1, obs ++ [s!"s={showRows got}/{if r.2 then "T" else "F"}"], false)
+  | ['o'] => some (w, obs ++ [walkObs w], false)
+  | ['a'] => let r := Walk.await ppOf w; some (r.1, obs ++ [s!"a{r.2}"], false)
+  | ['x'] => some (Walk.stepX ppOf w (.cancel 1), obs ++ ["x"], false)   -- the caller cancels the query's context (op walkc only)
+  | ['d'] =>
+    let r := Walk.scanK ppOf api (drainN w.it) w
+    some (r.1, obs ++ [s!"d={showRows (r.1.it.out.drop w.it.out.length)}"], false)
+  | ['D'] =>
+    if api != Walk.Api.scan then none else
+    let r := Walk.scanK ppOf api (drainN w.it) w
+    if r.1.it.cur.err.isSome then
+      -- SliceMap: (nil, err); the rows it had read are not handed over
+      some ({ r.1 with it := { r.1.it with out := w.it.out } }, obs ++ ["D=nil"], true)
+    else some (r.1, obs ++ [s!"D={showRows (r.1.it.out.drop w.it.out.length)}"], false)
+  | _ => none
+
+def walkFold (ppOf : Int → Nat → Nat) (api : Walk.Api) :
+    Walk.W × List String × Bool → List String → Option (Walk.W × List String × Bool)
+  | acc, [] => some acc
+  | acc, t :: ts => match walkStep ppOf api acc t with
+    | some a => walkFold ppOf api a ts
+    | none => none
+
+/-- op `walk` (spec-backed, `C15_walk_rows_spec` / `C15_walk_false_is_complete`): the strides only (rows handed
+    over + result of the last call), all rows, and the final error once a call has returned false; op `walko`:
+    everything (observers, prefetch probes, the request log at the moment of abandonment) -/
+def walkReduce (obs : List String) (rows err : String) : String :=
+  let keep := obs.filter fun o => o.startsWith "s=" || o.startsWith "d=" || o.startsWith "D="
+  let ended := obs.any fun o => o.endsWith "/F" || o.startsWith "d=" || o.startsWith "D="
+  s!"{if keep.isEmpty then "-" else ";".intercalate keep} rows={rows} err={if ended then err else "*"}"
+
+def walkAnswer (full : Bool) (consumer pf ps kind script steps : String) (cancels : Bool := false) : String :=
+  match ps.toInt?, parseScript script with
+  | some pageSize, some sc =>
+    if !(kind == "q" || kind == "x" || kind == "xs" || kind == "xd") then "bad-op" else
+    if !(consumer == "scan" || consumer == "mapscan" || consumer == "scanner") then "bad-op" else
+    let api := if consumer == "scanner" then Walk.Api.scanner else Walk.Api.scan
+    if !cancels && (steps.splitOn ",").contains "x" then "bad-op" else
+    let q : Qry := { ident := 1, prepared := kind != "q", skipMeta := kind == "xs", pageSize := pageSize,
+                     pageState := [], disableAutoPage := false, ctx := some 1 }
+    let ppOf : Int → Nat → Nat := fun _ => prefetchPos pf
+    -- beyond the script the node answers `script exhausted`
+    let w0 := Walk.start ppOf sc q
+    match walkFold ppOf api (w0, [], false) (steps.splitOn ",") with
+    | none => "bad-op"
+    | some (w, obs, _) =>
+      let w1 := Walk.settle ppOf w
+      if full then
+        s!"{";".intercalate obs} rows={showRows w1.it.out} err={showFail w1.it.cur.err} reqs={showReqs 1 w1.it.reqs}"
+      else walkReduce obs (showRows w1.it.out) (showFail w1.it.cur.err)
+  | _, _ => "bad-op"
+
+
+/-! ## `first` / `firstx` op (single-row helpers Query.Scan / Query.MapScan / Query.Exec on a paged statement):
+    `first v<n> <scan|mapscan|exec> <prefetch> <pagesize> <q|x|xs|xd> <script>`; `firstx` adds the request log -/
+
+def showFirstErr : Option First.Err → String
+  | none => "nil"
+  | some .notFound => "notfound"
+  | some (.fail f) => showFail (some f)
+
+def firstAnswer (full : Bool) (helper pf ps kind script : String) : String :=
+  match ps.toInt?, parseScript script with
+  | some pageSize, some sc =>
+    if !(kind == "q" || kind == "x" || kind == "xs" || kind == "xd") then "bad-op" else
+    if !(helper == "scan" || helper == "mapscan" || helper == "exec") then "bad-op" else
+    let q : Qry := { ident := 1, prepared := kind != "q", skipMeta := kind == "xs", pageSize := pageSize,
+                     pageState := [], disableAutoPage := false }
+    let o := if helper == "exec" then First.queryExec (prefetchPos pf) sc q else First.queryScan (prefetchPos pf) sc q
+    let row := match o.row with | some r => toString r | none => "-"
+    s!"row={row} err={showFirstErr o.err}{if full then " reqs=" ++ showReqs 1 o.reqs else ""}"
+  | _, _ => "bad-op"
+
+/-! ## `psess` op (a failing PREPARE at a page fetch): as `sess` (1 node, draining consumers), script entries
+    additionally `Ep<hexcode>` = the PREPARE of this fetch attempt is answered with that ERROR -/
+
+def parsePReply (s : String) : Option Prep.PReply :=
+  if s.startsWith "Ep" then
+    match parseHex (s.drop 2).toString with
+    | some [a, b] => some (.prepFail (.srv (a.toNat * 256 + b.toNat)))
+    | _ => none
+  else (parseReply s).map .base
+
+def psessAnswer (consumer pf ps kind script : String) : String :=
+  match ps.toInt?, (script.splitOn ";").mapM parsePReply with
+  | some pageSize, some sc =>
+    if !(kind == "x" || kind == "xs" || kind == "xd") then "bad-op" else
+    if !(consumer == "scan" || consumer == "scanner" || consumer == "mapscan" || consumer == "slicemap") then "bad-op" else
+    if !Prep.valid true sc true then "bad-op" else
+    let q : Qry := { ident := 1, prepared := true, skipMeta := kind == "xs", pageSize := pageSize,
+                     pageState := [], disableAutoPage := false }
+    let o := Prep.runP (prefetchPos pf) sc false q
+    let rows := if consumer == "slicemap" && o.err.isSome then "nil" else showRows o.rows
+    s!"rows={rows} err={showFail o.err} reqs={showReqs 1 o.reqs}"
+  | _, _ => "bad-op"
+
 def step (_ : Unit) (ws : List String) : Unit × String :=
   ((), match ws with
   | ["iter", consumer, pages] =>
@@ -425,6 +545,15 @@ def step (_ : Unit) (ws : List String) : Unit × String :=
   | ["sessx", ver, consumer, pf, ps, kind, first, script] => sessAnswer ver consumer pf ps kind first script
   | ["hist", vn, kind, consumer, scripts, steps] => histAnswer vn kind consumer scripts steps
   | ["rsess", ver, consumer, _, ps, kind, first, policy, script] => rsessAnswer ver consumer ps kind first policy script
+  | ["walk", _, consumer, pf, ps, kind, script, steps] => walkAnswer false consumer pf ps kind script steps
+  | ["walko", _, consumer, pf, ps, kind, script, steps] => walkAnswer true consumer pf ps kind script steps
+  | ["walkc", _, consumer, pf, ps, kind, script, steps] => walkAnswer true consumer pf ps kind script steps true
+  | ["first", _, helper, pf, ps, kind, script] => firstAnswer false helper pf ps kind script
+  | ["firstx", _, helper, pf, ps, kind, script] => firstAnswer true helper pf ps kind script
+  | ["psess", _, consumer, pf, ps, kind, script] => psessAnswer consumer pf ps kind script
+  -- a statement bound to one connection (Conn.query: skipPrepare, follow-up pages through `n.qry.conn`): an unprepared query
+  | ["csess", ver, consumer, pf, ps, script] =>
+    if consumer == "manual" || (ver.splitOn "n").length > 1 then "bad-op" else sessAnswer ver consumer pf ps "q" "." script
   | ["rsessx", ver, consumer, _, ps, kind, first, policy, script] => rsessAnswer ver consumer ps kind first policy script
   | _ => "bad-op")
 
